@@ -604,13 +604,11 @@ func c07Run(r *Run) {
 		ast.Inspect(fd.Body, func(m ast.Node) bool {
 			if c, ok := m.(*ast.CallExpr); ok {
 				// a helper of this package that answers with a control and consults the type itself
-				if h := declByObj[calleeOf(info, c)]; h != nil && h != fd && depth < 2 && h.Recv == nil {
-					if sig, ok := info.Defs[h.Name].Type().(*types.Signature); ok && sig.Results().Len() == 1 && isNamed(sig.Results().At(0).Type(), dataPath, "Control") {
-						if k, _ := callsIsDepth(h, depth+1); k > 0 {
-							n++
-							if !pos.IsValid() {
-								pos = c.Pos()
-							}
+				if h := declByObj[calleeOf(info, c)]; h != nil && h != fd && depth < 2 {
+					if k, _ := callsIsDepth(h, depth+1); k > 0 {
+						n++
+						if !pos.IsValid() {
+							pos = c.Pos()
 						}
 					}
 				}
@@ -786,6 +784,11 @@ func c07Reject(r *Run, npkg *packages.Package) {
 		// only enforcement boundaries: the function stores (SetVariableValue/SetProperty/SetIndexZVal/Store)
 		// or is a Call method returning (value, control)
 		fk := funcKey(npkg, fd)
+		if tn := recvTypeName(fd); tn != "" {
+			// keyed by the node type, not the method: moving the test into a helper method of the same
+			// type keeps the construct (and a listed finding) the same
+			fk = "node.(" + tn + ")"
+		}
 		nres := 0
 		if fd.Type.Results != nil {
 			nres = fd.Type.Results.NumFields()
@@ -892,39 +895,36 @@ func c07Reject(r *Run, npkg *packages.Package) {
 	}
 }
 
-// c07Pred: every `return true` of a visibility predicate is justified by an equality in which one
+// c07Pred: every way a visibility predicate can answer true is justified by an equality in which one
 // side is a party itself (caller class / bound scope / target class) and the other side belongs to the
-// other party (itself or its extends chain).
+// other party (itself or its extends chain). Helpers that answer bool are analysed with the tags of
+// the arguments at each call site.
 func c07Pred(r *Run, npkg *packages.Package, preds map[string]bool) {
 	r.curRule = "C07-PRED"
 	info := npkg.TypesInfo
-	names := []string{}
-	for n := range preds {
-		names = append(names, n)
+	declOf := map[types.Object]*ast.FuncDecl{}
+	for _, fd := range funcDecls(npkg) {
+		declOf[info.Defs[fd.Name]] = fd
 	}
-	sort.Strings(names)
-	for _, name := range names {
-		fd := findFunc(npkg, "", name)
-		if fd == nil {
-			continue
-		}
-		fk := funcKey(npkg, fd)
-		// tags: 1=C0 2=C+ 4=T0 8=T+
+	type grant struct {
+		pos token.Pos
+		ok  bool
+	}
+	// analyse returns the grant sites of fd when its parameters carry the given tags
+	// (1=C0 2=C+ 4=T0 8=T+), and whether every grant is justified
+	var analyse func(fd *ast.FuncDecl, paramTags []int, depth int) []grant
+	analyse = func(fd *ast.FuncDecl, paramTags []int, depth int) []grant {
 		tags := map[types.Object]int{}
-		var ctxObj types.Object
+		k := 0
 		for _, f := range fd.Type.Params.List {
 			for _, nm := range f.Names {
-				o := info.Defs[nm]
-				t := info.TypeOf(f.Type)
-				switch {
-				case isNamed(t, modPath+"/data", "ClassStmt"):
-					tags[o] = 4
-				case isNamed(t, modPath+"/data", "Context"):
-					ctxObj = o
-					tags[o] = 1
+				if k < len(paramTags) {
+					tags[info.Defs[nm]] = paramTags[k]
 				}
+				k++
 			}
 		}
+		grantVar := map[types.Object]bool{} // bool locals that hold a justified answer of a helper
 		var tagOf func(e ast.Expr) int
 		tagOf = func(e ast.Expr) int {
 			switch x := ast.Unparen(e).(type) {
@@ -933,7 +933,7 @@ func c07Pred(r *Run, npkg *packages.Package, preds map[string]bool) {
 			case *ast.StarExpr:
 				return tagOf(x.X)
 			case *ast.SelectorExpr:
-				return tagOf(x.X) // field of a tagged value (cmc.Class, bc.ScopeClass)
+				return tagOf(x.X)
 			case *ast.TypeAssertExpr:
 				return tagOf(x.X)
 			case *ast.CallExpr:
@@ -946,7 +946,6 @@ func c07Pred(r *Run, npkg *packages.Package, preds map[string]bool) {
 						return derive(base)
 					}
 				}
-				// any other call: derived from its class-tagged arguments
 				out := 0
 				for _, a := range x.Args {
 					out |= derive(tagOf(a))
@@ -955,39 +954,92 @@ func c07Pred(r *Run, npkg *packages.Package, preds map[string]bool) {
 			}
 			return 0
 		}
-		_ = ctxObj
+		var helperGrants []grant
 		for pass := 0; pass < 4; pass++ {
 			ast.Inspect(fd.Body, func(n ast.Node) bool {
-				as, ok := n.(*ast.AssignStmt)
-				if !ok {
-					return true
-				}
-				for i, l := range as.Lhs {
-					id, ok := l.(*ast.Ident)
-					if !ok || id.Name == "_" {
-						continue
+				switch x := n.(type) {
+				case *ast.TypeSwitchStmt:
+					// switch v := e.(type): v carries e's tags in every clause
+					if as, ok := x.Assign.(*ast.AssignStmt); ok && len(as.Rhs) == 1 {
+						if ta, ok := ast.Unparen(as.Rhs[0]).(*ast.TypeAssertExpr); ok {
+							t := tagOf(ta.X)
+							for _, cc := range x.Body.List {
+								if o := info.Implicits[cc]; o != nil {
+									tags[o] |= t
+								}
+							}
+						}
 					}
-					o := info.Defs[id]
-					if o == nil {
-						o = info.Uses[id]
-					}
-					if o == nil {
-						continue
-					}
-					var rhs ast.Expr
-					if len(as.Rhs) == len(as.Lhs) {
-						rhs = as.Rhs[i]
-					} else if len(as.Rhs) == 1 && i == 0 {
-						rhs = as.Rhs[0]
-					}
-					if rhs != nil {
-						tags[o] |= tagOf(rhs)
+				case *ast.AssignStmt:
+					for i, l := range x.Lhs {
+						id, ok := l.(*ast.Ident)
+						if !ok || id.Name == "_" {
+							continue
+						}
+						o := info.Defs[id]
+						if o == nil {
+							o = info.Uses[id]
+						}
+						if o == nil {
+							continue
+						}
+						var rhs ast.Expr
+						if len(x.Rhs) == len(x.Lhs) {
+							rhs = x.Rhs[i]
+						} else if len(x.Rhs) == 1 && i == 0 {
+							rhs = x.Rhs[0]
+						}
+						if rhs != nil {
+							tags[o] |= tagOf(rhs)
+						}
 					}
 				}
 				return true
 			})
 		}
-		// bool locals defined once by an expression: the condition may name them
+		// helper calls whose first result is bool: analyse with the argument tags of this call site
+		if depth < 2 {
+			ast.Inspect(fd.Body, func(n ast.Node) bool {
+				as, ok := n.(*ast.AssignStmt)
+				if !ok || len(as.Rhs) != 1 {
+					return true
+				}
+				c, ok := ast.Unparen(as.Rhs[0]).(*ast.CallExpr)
+				if !ok {
+					return true
+				}
+				h := declOf[calleeOf(info, c)]
+				if h == nil || h == fd || h.Type.Results == nil {
+					return true
+				}
+				sig := info.Defs[h.Name].Type().(*types.Signature)
+				if b, ok := sig.Results().At(0).Type().Underlying().(*types.Basic); !ok || b.Kind() != types.Bool {
+					return true
+				}
+				at := make([]int, len(c.Args))
+				for i, a := range c.Args {
+					at[i] = tagOf(a)
+				}
+				gs := analyse(h, at, depth+1)
+				all := len(gs) > 0
+				for _, g := range gs {
+					if !g.ok {
+						all = false
+					}
+				}
+				helperGrants = append(helperGrants, gs...)
+				if id, ok := as.Lhs[0].(*ast.Ident); ok && all {
+					o := info.Defs[id]
+					if o == nil {
+						o = info.Uses[id]
+					}
+					if o != nil {
+						grantVar[o] = true
+					}
+				}
+				return true
+			})
+		}
 		boolDefs := map[types.Object]ast.Expr{}
 		ast.Inspect(fd.Body, func(n ast.Node) bool {
 			if as, ok := n.(*ast.AssignStmt); ok && len(as.Lhs) == 1 && len(as.Rhs) == 1 {
@@ -1006,7 +1058,11 @@ func c07Pred(r *Run, npkg *packages.Package, preds map[string]bool) {
 			good := false
 			ast.Inspect(cond, func(n ast.Node) bool {
 				if id, ok := n.(*ast.Ident); ok {
-					if def, ok := boolDefs[info.Uses[id]]; ok && justified(def) {
+					o := info.Uses[id]
+					if grantVar[o] {
+						good = true
+					}
+					if def, ok := boolDefs[o]; ok && justified(def) {
 						good = true
 					}
 				}
@@ -1015,7 +1071,6 @@ func c07Pred(r *Run, npkg *packages.Package, preds map[string]bool) {
 					return true
 				}
 				a, b := tagOf(be.X), tagOf(be.Y)
-				// acceptable pairings: (C0,T0) (C+,T0) (C0,T+) in either order
 				pair := func(x, y int) bool {
 					return (x&1 != 0 && y&4 != 0) || (x&2 != 0 && y&4 != 0) || (x&1 != 0 && y&8 != 0)
 				}
@@ -1026,28 +1081,42 @@ func c07Pred(r *Run, npkg *packages.Package, preds map[string]bool) {
 			})
 			return good
 		}
-		// enclosing if-conditions (body side) of each `return true`
+		var out []grant
 		var visit func(list []ast.Stmt, conds []ast.Expr)
-		n := 0
 		visit = func(list []ast.Stmt, conds []ast.Expr) {
 			for _, st := range list {
 				switch x := st.(type) {
 				case *ast.ReturnStmt:
-					if len(x.Results) == 1 && exprStr(x.Results[0]) == "true" {
-						n++
-						ok := false
-						for _, c := range conds {
-							if justified(c) {
-								ok = true
+					if len(x.Results) == 0 {
+						continue
+					}
+					res := ast.Unparen(x.Results[0])
+					isTrue := exprStr(res) == "true"
+					isGrantVar := false
+					if id, ok := res.(*ast.Ident); ok && grantVar[info.Uses[id]] {
+						isGrantVar = true
+					}
+					if !isTrue && !isGrantVar {
+						// a returned expression that may be true: a variable or a helper call
+						if exprStr(res) == "false" {
+							continue
+						}
+						if id, ok := res.(*ast.Ident); ok {
+							if v, ok := info.Uses[id].(*types.Var); ok {
+								if b, ok := v.Type().Underlying().(*types.Basic); ok && b.Kind() == types.Bool {
+									out = append(out, grant{x.Pos(), justified(res)})
+								}
 							}
 						}
-						key := fk + "#grants"
-						if ok {
-							r.ok(key, x.Pos(), "access is granted on an identity between one party itself and the other party or its ancestors")
-						} else {
-							r.bad(key, x.Pos(), "access is granted without an identity between one party itself and a member of the other's extends chain (for example on two chains meeting at a common root): unrelated or sibling classes reach private/protected members")
+						continue
+					}
+					ok := isGrantVar
+					for _, c := range conds {
+						if justified(c) {
+							ok = true
 						}
 					}
+					out = append(out, grant{x.Pos(), ok})
 				case *ast.IfStmt:
 					visit(x.Body.List, append(append([]ast.Expr{}, conds...), x.Cond))
 					if x.Else != nil {
@@ -1067,12 +1136,58 @@ func c07Pred(r *Run, npkg *packages.Package, preds map[string]bool) {
 					for _, cc := range x.Body.List {
 						visit(cc.(*ast.CaseClause).Body, conds)
 					}
+				case *ast.TypeSwitchStmt:
+					for _, cc := range x.Body.List {
+						visit(cc.(*ast.CaseClause).Body, conds)
+					}
 				}
 			}
 		}
 		visit(fd.Body.List, nil)
-		if n == 0 {
-			r.fail("visibility predicate %s never returns true", name)
+		for _, g := range helperGrants {
+			if !g.ok {
+				out = append(out, g)
+			}
+		}
+		return out
+	}
+	names := []string{}
+	for n := range preds {
+		names = append(names, n)
+	}
+	sort.Strings(names)
+	for _, name := range names {
+		fd := findFunc(npkg, "", name)
+		if fd == nil {
+			continue
+		}
+		fk := funcKey(npkg, fd)
+		var pt []int
+		for _, f := range fd.Type.Params.List {
+			for range f.Names {
+				t := info.TypeOf(f.Type)
+				switch {
+				case isNamed(t, modPath+"/data", "ClassStmt"):
+					pt = append(pt, 4)
+				case isNamed(t, modPath+"/data", "Context"):
+					pt = append(pt, 1)
+				default:
+					pt = append(pt, 0)
+				}
+			}
+		}
+		gs := analyse(fd, pt, 0)
+		if len(gs) == 0 {
+			r.fail("visibility predicate %s never answers true", name)
+		}
+		sort.Slice(gs, func(i, j int) bool { return gs[i].pos < gs[j].pos })
+		for _, g := range gs {
+			key := fk + "#grants"
+			if g.ok {
+				r.ok(key, g.pos, "access is granted on an identity between one party itself and the other party or its ancestors")
+			} else {
+				r.bad(key, g.pos, "access is granted without an identity between one party itself and a member of the other's extends chain (for example on two chains meeting at a common root): unrelated or sibling classes reach private/protected members")
+			}
 		}
 	}
 }
